@@ -11,6 +11,7 @@
 //	serve [cookie=<scheme>,<host>,<path|->] [mutate=host|path|scheme] -> 200 <url seen downstream> fresh|alias | 500 <kind>
 //	rate <scheme> <host> <path|-> <num>/<den> | ready … 0|1           -> ok | err notfound   (scripted meter of that server)
 //	adv <ns>                                                         -> ok
+//	race <pairs> <reqs>                                              -> race ok | race nonmember=<n>   (add+remove of a reserved server racing with requests)
 package main
 
 import (
@@ -21,6 +22,7 @@ import (
 	"sort"
 	"strconv"
 	"strings"
+	"sync"
 	"time"
 
 	"github.com/vulcand/oxy/v2/roundrobin"
@@ -253,6 +255,59 @@ func (s *h) Op(f []string) string {
 			}
 		}
 		return fmt.Sprintf("%d %s %s", rec.Code, s.seenStr, al)
+	case "race":
+		// administration calls racing with requests: one goroutine adds and removes a reserved server
+		// <pairs> times while another issues <reqs> requests and NextServer calls; every routed URL must be
+		// a member (or the reserved server).  A final sequential add+remove leaves a deterministic state.
+		if len(f) != 3 {
+			return "bad-op"
+		}
+		pairs, e1 := strconv.Atoi(f[1])
+		reqs, e2 := strconv.Atoi(f[2])
+		if e1 != nil || e2 != nil || pairs < 0 || reqs < 0 {
+			return "bad-op"
+		}
+		x := &url.URL{Scheme: "http", Host: "zz-race", Path: "/"}
+		allowed := map[string]bool{ustr(x): true}
+		for _, u := range s.fr.Servers() {
+			allowed[ustr(u)] = true
+		}
+		s.mutate = ""
+		var wg sync.WaitGroup
+		bad := 0
+		wg.Add(2)
+		go func() {
+			defer wg.Done()
+			for i := 0; i < pairs; i++ {
+				s.creating = key(x)
+				_ = s.fr.UpsertServer(x)
+				_ = s.fr.RemoveServer(x)
+			}
+		}()
+		go func() {
+			defer wg.Done()
+			for i := 0; i < reqs; i++ {
+				s.called = false
+				rec := httptest.NewRecorder()
+				s.fr.ServeHTTP(rec, httptest.NewRequest(http.MethodGet, "http://front.example/req", nil))
+				if s.called && !allowed[s.seenStr] {
+					bad++
+				}
+				if u, err := s.rr.NextServer(); err == nil && !allowed[ustr(u)] {
+					bad++
+				}
+			}
+		}()
+		wg.Wait()
+		s.creating = key(x)
+		_ = s.fr.UpsertServer(x)
+		_ = s.fr.RemoveServer(x)
+		s.creating = ""
+		delete(s.meters, key(x))
+		if bad != 0 {
+			return fmt.Sprintf("race nonmember=%d", bad)
+		}
+		return "race ok"
 	case "rate", "ready":
 		if len(f) != 5 {
 			return "bad-op"
